@@ -868,10 +868,60 @@ class Analyzer(Interp):
             for mk in muts:
                 self.havoc_key(st, mk)
 
+    # (callee, index of the size argument): calls that request memory for a number of elements chosen by the caller
+    ALLOC_SIZE_ARG = (("Vec::with_capacity", 0), ("String::with_capacity", 0), ("VecDeque::with_capacity", 0), ("HashMap::with_capacity", 0),
+                      ("HashSet::with_capacity", 0), ("Vec::reserve", 1), ("Vec::reserve_exact", 1), ("Vec::try_reserve", 1),
+                      ("Vec::try_reserve_exact", 1), ("String::reserve", 1), ("String::reserve_exact", 1), ("String::try_reserve", 1),
+                      ("vec::from_elem", 1), ("Vec::resize", 1), ("str::repeat", 1), ("slice::repeat", 1), ("VecDeque::reserve", 1),
+                      ("HashMap::reserve", 1), ("HashSet::reserve", 1), ("Box::new_uninit_slice", 0), ("Vec::resize_with", 1))
+    ALLOC_FACTOR = 4       # requested elements <= ALLOC_FACTOR * len(some sequence the state already holds) + ALLOC_SLACK
+    ALLOC_SLACK = 64
+    ALLOC_CONST = 9000     # or <= the largest datagram the daemon accepts
+
+    def check_alloc(self, fn, frame, b, t, st, name):
+        """class-M site: the number of elements a reservation asks for is bounded by what is already in memory (a linear
+        function of the length of a sequence in the state) or by a small constant — never by a number merely read from
+        the input.  Nothing is assumed afterwards (an oversized request is not a panic)."""
+        for (m, i) in self.ALLOC_SIZE_ARG:
+            if not (matches(name, m) or name.endswith("::" + m) or name.endswith(m)):
+                continue
+            s = self.site(fn, b, "alloc", "requested capacity is bounded by the data already held", cls="M")
+            if st.bottom:
+                return
+            s.seen += 1
+            v = self.deref(st, self.arg(st, frame, t, i))
+            k = v[1] if v[0] == "int" else None
+            ok = False
+            how = None
+            if k is not None:
+                if st.store.entails(k.addc(-self.ALLOC_CONST)):
+                    ok, how = True, "%s <= %d" % (k, self.ALLOC_CONST)
+                else:
+                    lens = []
+                    for key in sorted(st.env, key=repr):
+                        vv = st.env[key]
+                        if isinstance(vv, tuple) and vv and vv[0] == "seq" and vv[1] not in lens:
+                            lens.append(vv[1])
+                    for L in lens[:40]:
+                        if st.store.entails(k.sub(L.scale(self.ALLOC_FACTOR)).addc(-self.ALLOC_SLACK)):
+                            ok, how = True, "%s <= %d * %s + %d" % (k, self.ALLOC_FACTOR, L, self.ALLOC_SLACK)
+                            break
+            if ok:
+                if s.proof is None:
+                    s.proof = how
+            else:
+                if s.ok:
+                    iv = st.store.interval(k) if k is not None else None
+                    s.fail_detail = "requested element count %s (range %s) is not bounded by a sequence in memory [context: %s]" % (
+                        k, iv, " > ".join(self.stack[-3:]))
+                s.ok = False
+            return
+
     def exec_call(self, fn, frame, b, t, st):
         name = nm(t)
         tgt = t.get("target")
         self.run_closure_args(fn, frame, b, t, st)
+        self.check_alloc(fn, frame, b, t, st, name)
         res = self.model_call(fn, frame, b, t, st, name)
         if res == "diverge":
             return []
